@@ -154,9 +154,9 @@ def LateAssign(x: int, typed: bool = True) -> ty.Any:
     nodes = [a, b, c]
     late = R.FLAGS.get("late")
     if late is not None:
-        i, j = late
         wf = workflow.this()
-        wf[["a", "b", "c"][i]].inputs.x = nodes[j].out
+        for (i, j) in (late if isinstance(late, list) else [late]):
+            wf[["a", "b", "c"][i]].inputs.x = nodes[j].out
     return c.out
 
 
